@@ -17,6 +17,7 @@ RULE = (
     "paths and RenderTree rows/text are compared as label-mapped values. Non-trivial = history with >= 1 refused or vetoed call and >= 1 "
     "successful link change (enumerated single steps: the call changed a link or raised after a hook ran)."
     " Also: interrupt-like BaseExceptions among the fault plans; chains deeper than the interpreter's recursion limit (upward-looking attributes, Walker, commonancestors, four structural calls) in lock-step."
+    ' Also: a class pair overriding the public children property, sparse reads, iter_path_reverse consumed step by step while nodes move.'
 )
 ASSUMPTIONS = [
     "pure differential oracle: no reference model, the two mixins are compared with each other",
